@@ -17,7 +17,7 @@ const METAS: &[PropMeta] = &[
     PropMeta {
         id: "C01",
         level: "exploration",
-        rule: "seeded Raft-legal histories (vote/append/truncate/purge/commit/user-data/flush) under a random chunk configuration; after EVERY operation the real store's state, read(0,MAX), 3 random sub-ranges and stat() are compared with an in-memory reference log. A case is one history; it is non-trivial if it journalled >=5 records and rotated chunks at least once; distinct = distinct (config, operation list). Histories also contain update_state (vote/commit/user-data change keeping last and purged) and read-only calls (dump, snapshot iteration, abandoned dump). A third of the large-cache histories end with a burst of calls with arguments at the integer limits: where specification and store both accept a call their states are compared as well.",
+        rule: "seeded Raft-legal histories (vote/append/truncate/purge/commit/user-data/flush) under a random chunk configuration; after EVERY operation the real store's state, read(0,MAX), 3 random sub-ranges and stat() are compared with an in-memory reference log. A case is one history; it is non-trivial if it journalled >=5 records and rotated chunks at least once; distinct = distinct (config, operation list). Histories also contain update_state (vote/commit/user-data change keeping last and purged) and read-only calls (dump, snapshot iteration, abandoned dump). A third of the large-cache histories end with a burst of calls with arguments at the integer limits: where specification and store both accept a call their states are compared as well. Along walks with update_state as an ordinary step every accepted append is read back at once and must return the id and payload just appended (an id that is still resident may be appended again with another payload).",
         assumptions: &["reference model = plain in-memory Raft log written from the property statement", "payload cache limits left at defaults (cache pressure is C07)", "types: LogId=(u64,u64), payload=String"],
         min_distinct: 20,
     },
@@ -59,7 +59,7 @@ const METAS: &[PropMeta] = &[
     PropMeta {
         id: "C04",
         level: "fault_enumeration",
-        rule: "scheduled histories (tiny chunks, many flushes with and without callback, several flushes queued behind a parked worker, flushes right before/after rotations) in which the worker is stepped through its write/fdatasync/unlink calls by a seeded schedule, with fault plans: none / one failing fdatasync / two or three consecutive failing fdatasyncs / one failing, short or partial write / sync failure + short write. The recorded trace is replayed into a shadow file system (durable = snapshot at the last successful sync); at every Ack(Ok) event every byte journalled before that flush call must be durable in its chunk file; plus at-most-once, exactly-once without faults, callback order = call order, no Err without fault. Non-trivial = run with >=1 callback; distinct = distinct (thread, syscall kind, file) interleavings of the trace. Also: a failing chunk-file creation by the caller; the full-queue scenario (exactly 1024 flushes, 2 MiB of payload in half of the rounds, queued behind a parked worker plus one sender blocked on the full queue) checked with the same rules. A flush call that fails without an injected fault is a violation (its callback can never fire); full-queue rounds queue up to 6 MiB; a worker that sleeps with requests unprocessed (request lost) is reported as a callback never invoked. Single flushes of 3-12 MiB (10-40 appends of 120-500 kB journalled with the worker idle, then one flush with callback).",
+        rule: "scheduled histories (tiny chunks, many flushes with and without callback, several flushes queued behind a parked worker, flushes right before/after rotations) in which the worker is stepped through its write/fdatasync/unlink calls by a seeded schedule, with fault plans: none / one failing fdatasync / two or three consecutive failing fdatasyncs / one failing, short or partial write / sync failure + short write. The recorded trace is replayed into a shadow file system (durable = snapshot at the last successful sync); at every Ack(Ok) event every byte journalled before that flush call must be durable in its chunk file; plus at-most-once, exactly-once without faults, callback order = call order, no Err without fault. Non-trivial = run with >=1 callback; distinct = distinct (thread, syscall kind, file) interleavings of the trace. Also: a failing chunk-file creation by the caller; the full-queue scenario (exactly 1024 flushes, 2 MiB of payload in half of the rounds, queued behind a parked worker plus one sender blocked on the full queue) checked with the same rules. A flush call that fails without an injected fault is a violation (its callback can never fire); full-queue rounds queue up to 6 MiB; a worker that sleeps with requests unprocessed (request lost) is reported as a callback never invoked. Single flushes of 3-12 MiB (10-40 appends of 120-500 kB journalled with the worker idle, then one flush with callback). The built-in channel callback (SyncSender): 3-8 flushes hand clones of one bounded sender (capacity 1-2) to the store and the receiver reads late; every flush must be answered exactly once.",
         assumptions: &["a failed fdatasync leaves durable state unchanged; a later successful fdatasync of the same file makes everything written to it durable", "journal end at the flush call is taken from stat().open_chunk.global_end (cross-checked byte-exactly by C11)"],
         min_distinct: 20,
     },
@@ -101,7 +101,7 @@ const METAS: &[PropMeta] = &[
     PropMeta {
         id: "C14",
         level: "exploration",
-        rule: "purge-heavy scheduled histories (tiny chunks) end with purge + flush(callback); the worker is stepped exactly until that callback has fired, which typically leaves it parked in front of its queued unlink/write calls; the store is then dropped on a helper thread and the directory reopened at a seeded placement: 0 right after drop returned, 1 after the old worker advanced k calls, 2 with the new opener parked inside open() (after listing the directory) while the old worker performs its remaining calls, 3 after the old worker ended. Oracles: no directory-mutating call of the dropped instance's worker thread appears in the trace after drop() returned; the reopen succeeds and shows exactly the acknowledged state and entries; the new instance appends, purges, flushes and is acknowledged Ok. Sound for a detached worker and for a joining Drop (then drop only returns once the released worker has ended). Non-trivial = case in which worker calls were still pending at drop; distinct = distinct (history, schedule, placement). Five placements (4 = an opener already under way when the drop starts, parked at the gate point 'about to open LOCK' and released after drop() returned); one case in five keeps the old worker parked for 400 ms before releasing it; 0-3 appends are issued after the last acknowledged flush without flushing (after the reopen any prefix >= the acknowledged state is accepted); in half of the cases an open is attempted while drop() is in progress with the worker parked (must be refused). After the reopen a second RaftLog and a Dump are attempted while the new instance is alive (must be refused: reported under C13); the new instance does two flush rounds (append+purge+flush, append+flush), both must be acknowledged; that a flush is never acknowledged is concluded from the worker's state (ended, or asleep with requests unprocessed), never from a clock.",
+        rule: "purge-heavy scheduled histories (tiny chunks) end with purge + flush(callback); the worker is stepped exactly until that callback has fired, which typically leaves it parked in front of its queued unlink/write calls; the store is then dropped on a helper thread and the directory reopened at a seeded placement: 0 right after drop returned, 1 after the old worker advanced k calls, 2 with the new opener parked inside open() (after listing the directory) while the old worker performs its remaining calls, 3 after the old worker ended. Oracles: no directory-mutating call of the dropped instance's worker thread appears in the trace after drop() returned; the reopen succeeds and shows exactly the acknowledged state and entries; the new instance appends, purges, flushes and is acknowledged Ok. Sound for a detached worker and for a joining Drop (then drop only returns once the released worker has ended). Non-trivial = case in which worker calls were still pending at drop; distinct = distinct (history, schedule, placement). Five placements (4 = an opener already under way when the drop starts, parked at the gate point 'about to open LOCK' and released after drop() returned); one case in five keeps the old worker parked for 400 ms before releasing it; 0-3 appends are issued after the last acknowledged flush without flushing (after the reopen any prefix >= the acknowledged state is accepted); in half of the cases an open is attempted while drop() is in progress with the worker parked (must be refused). After the reopen a second RaftLog and a Dump are attempted while the new instance is alive (must be refused: reported under C13); the new instance does two flush rounds (append+purge+flush, append+flush), both must be acknowledged; that a flush is never acknowledged is concluded from the worker's state (ended, or asleep with requests unprocessed), never from a clock. A dump_data() snapshot taken from the old instance before its last purge is dropped while a new instance owns the directory: no chunk file may appear or vanish.",
         assumptions: &["a 50 ms wait decides only when the parked worker is released, never a verdict", "same-process reopen; cross-process reopen differs only in the flock, which C13 covers"],
         min_distinct: 20,
     },
@@ -122,7 +122,7 @@ const METAS: &[PropMeta] = &[
     PropMeta {
         id: "C13",
         level: "exploration",
-        rule: "a directory holding a clean store-made image (data, nothing pending) is contended for by 2-8 threads of one process and by 2-6 child processes, each looping {RaftLog::open or Dump::new (1 in 3); if Ok: use it (read all entries / dump), hold briefly, drop}. Threads: an atomic owner counter incremented after open returned Ok and decremented before drop starts must never exceed 1. Processes: ownership intervals [after open Ok, before drop] on CLOCK_MONOTONIC are merged offline and must not overlap. After every refused attempt (threads) and at the end (both) the chunk files must be byte-identical to the original image; after all contenders are gone open must succeed. A case = one attempt (acquisition or refusal); distinct = rounds in which both acquisitions and refusals were observed. Plus: a WRITING owner whose caller thread and worker are stepped through their file-system calls by the gate, with RaftLog::open + Dump::new attempted at every parked point (must be refused; any chunk-file mutation by the contender's thread id in the trace is a violation); an open attempt while the previous owner's drop() has not returned and its worker is parked (must be refused while that worker thread is alive); a fork round (a child forked while the owner was alive still holds inherited descriptors; after the owner is dropped the next open must succeed). Further rounds: the owner is another process (this process is refused, the owner exits, this process must then open); the same directory under other path spellings (symlink, dir/., dir//, dir/../dir); the owner's worker ends on an injected I/O error while the owner lives on (still owned); a second RaftLog/Dump attempted while the instance that took over after a drop is alive. Also: the flock() call of the contender fails with ENOLCK/EINTR/EIO/ENOSYS while an owner lives (must still be refused); the owner is dropped while a dump_data() snapshot of it is alive (the next open must succeed).",
+        rule: "a directory holding a clean store-made image (data, nothing pending) is contended for by 2-8 threads of one process and by 2-6 child processes, each looping {RaftLog::open or Dump::new (1 in 3); if Ok: use it (read all entries / dump), hold briefly, drop}. Threads: an atomic owner counter incremented after open returned Ok and decremented before drop starts must never exceed 1. Processes: ownership intervals [after open Ok, before drop] on CLOCK_MONOTONIC are merged offline and must not overlap. After every refused attempt (threads) and at the end (both) the chunk files must be byte-identical to the original image; after all contenders are gone open must succeed. A case = one attempt (acquisition or refusal); distinct = rounds in which both acquisitions and refusals were observed. Plus: a WRITING owner whose caller thread and worker are stepped through their file-system calls by the gate, with RaftLog::open + Dump::new attempted at every parked point (must be refused; any chunk-file mutation by the contender's thread id in the trace is a violation); an open attempt while the previous owner's drop() has not returned and its worker is parked (must be refused while that worker thread is alive); a fork round (a child forked while the owner was alive still holds inherited descriptors; after the owner is dropped the next open must succeed). Further rounds: the owner is another process (this process is refused, the owner exits, this process must then open); the same directory under other path spellings (symlink, dir/., dir//, dir/../dir); the owner's worker ends on an injected I/O error while the owner lives on (still owned); a second RaftLog/Dump attempted while the instance that took over after a drop is alive. Also: the flock() call of the contender fails with ENOLCK/EINTR/EIO/ENOSYS while an owner lives (must still be refused); the owner is dropped while a dump_data() snapshot of it is alive (the next open must succeed). Races of 2-6 threads for a directory that is still empty: the winner writes and flushes 6 entries, later winners continue; at the end all of them must be there (a refused opener must not clean up).",
         assumptions: &["one host, local file system (tmpfs); flock semantics of Linux", "owners do not write, so any change of a chunk file is attributable to an attempt"],
         min_distinct: 8,
     },
